@@ -137,8 +137,8 @@ func c01(p *Prog, r *Report) {
 		ks := "call<(github.com/cisco/go-hpke.AEADScheme).KeySize>(" + suite + ".AEAD)"
 		ns := "call<(github.com/cisco/go-hpke.AEADScheme).NonceSize>(" + suite + ".AEAD)"
 		npk := "call<(github.com/cisco/go-hpke.KEMScheme).PublicKeySize>(" + suite + ".KEM)"
-		nb := "make(call<tokens/type3.max>(" + ks + ", " + ns + "), fill<crypto/rand.Read>(const:dst))"
-		salt := "cat(make(" + npk + ", copy(slice(*.EncryptedTokenRequest, const:0, " + npk + "))), " + nb + ")"
+		nb := "make(call<builtin.max>(" + ks + ", " + ns + "), fill<crypto/rand.Read>(const:dst))"
+		salt := "cat(slice(*.EncryptedTokenRequest, const:0, " + npk + "), " + nb + ")"
 		prk := "call<(github.com/cisco/go-hpke.KDFScheme).Extract>(" + suite + ".KDF, " + salt + ", extract<1>(call<tokens/type3.decryptOriginTokenRequest>(*)))"
 		key := "call<(github.com/cisco/go-hpke.KDFScheme).Expand>(" + suite + ".KDF, " + prk + ", load(global:github.com/cloudflare/pat-go/tokens/type3.labelResponseKey), " + ks + ")"
 		nonce := "call<(github.com/cisco/go-hpke.KDFScheme).Expand>(" + suite + ".KDF, " + prk + ", load(global:github.com/cloudflare/pat-go/tokens/type3.labelResponseNonce), " + ns + ")"
